@@ -942,6 +942,13 @@ def summarize(table: Table, **kwargs: ColExpr) -> Pipeable:
     if len(kwargs) == 0 and len(partition_by) == 0:
         raise ValueError("summarize without preceding group_by needs at least one column to summarize")
 
+    for uid in table._cache.partition_by:
+        if uid not in table._cache.uuid_to_name:
+            raise ValueError(
+                f"cannot summarize: the grouping column `{table._cache.cols[uid].ast_repr()}` is not "
+                "selected any more (it was dropped, de-selected or overwritten after `group_by`)"
+            )
+
     def check_summarize_col_expr(expr: ColExpr, agg_fn_above: bool):
         if isinstance(expr, Col) and expr._uuid not in partition_by and not agg_fn_above:
             raise FunctionTypeError(
